@@ -54,6 +54,7 @@ HARNESS_FILES = {
     "source_md5.rs": ("src/source.rs", "verif_md5"),
     "repeat.rs": ("src/repeat.rs", "verif"),
     "rice_parts.rs": ("src/rice.rs", "verif_parts"),
+    "rice_small.rs": ("src/rice.rs", "verif_small"),
     "datatype_pre.rs": ("src/component/datatype.rs", "verif_pre"),
     "decode_sig.rs": ("src/component/decode.rs", "verif_sig"),
 }
